@@ -270,7 +270,13 @@ mod numeric_formatting {
             if i > 0 {
                 match integer_fmt[i - 1] {
                     ',' => {
-                        result.insert(0, if j > 0 { ',' } else { ' ' });
+                        if j > 0 && !unformatted[j - 1].is_ascii_digit() {
+                            // no digits left to separate: the sign takes this position
+                            result.insert(0, unformatted[j - 1]);
+                            j -= 1;
+                        } else {
+                            result.insert(0, if j > 0 { ',' } else { ' ' });
+                        }
                     }
                     '#' => {
                         if j > 0 {
